@@ -211,6 +211,8 @@ def judge(world, out, rec_ckpts=None):
     done0 = [r for r in recs if r["k"] == "fs" and r["i"] == 0 and r["op"] == "rename"
              and (r.get("dst") or "").endswith(resume_name) and "torn_at" not in r]
     c = len(done0)
+    if done0 and done0[-1].get("ckpt") is not None:
+        c = done0[-1]["ckpt"]  # ordinal of the last checkpoint whose rename completed (handler checkpoints nest)
     begins = {r["ordinal"]: r for r in recs if r["k"] == "ckpt_begin" and r["i"] == 0}
     wsaved = [r for r in recs if r["k"] == "weights_saved" and r["i"] == 0]
     if len(incs) < 2:
@@ -432,7 +434,16 @@ def body(r):
                 if not (os.path.isdir(snap) and os.path.exists(byts)):
                     continue
                 n = wr[0]["nbytes"]
-                for L in range(0, n):
+                # every byte prefix for the first save of the two base scenarios; elsewhere every k-th prefix plus
+                # each recorded write boundary and its neighbours (a whole tier must finish in tens of minutes)
+                if rec["name"] in ("ns-iter", "ins-keep") and win is wins[0]:
+                    prefixes = range(0, n)
+                else:
+                    ps = set(range(0, n, max(1, n // 400)))
+                    for b in wr[0].get("bounds") or []:
+                        ps.update(x for x in (b - 1, b, b + 1) if 0 <= x < n)
+                    prefixes = sorted(ps)
+                for L in prefixes:
                     syn.append({"name": rec["name"], "world": {k: v for k, v in rj["world"].items()
                                                                if k != "weights_snapshots"},
                                 "snapshot": snap, "bytes": byts, "path": cr[0]["path"], "L": L,
@@ -476,7 +487,8 @@ def body(r):
         rule=("fault enumeration: for each scenario of a fixed matrix, every fs event of the selected checkpoints "
               "(quick: first, second, middle, last two; thorough: all) and of the weights saves is a kill point "
               "(kill after the event, and inside each write at prefix lengths {0,1,1/4,1/2,3/4,len-1}; thorough: "
-              "pickle every ~1/40 of the file, weights every byte via synthetic torn states). A case is "
+              "pickle every ~1/40 of the file; weights via synthetic torn states: every byte for the first save of the two "
+              "base scenarios, every ~1/400 plus each write boundary +-1 elsewhere). A case is "
               "distinct by (scenario, op kind, path class, torn?, fresh-or-resumed); all are non-trivial "
               "(the kill lands inside an in-flight checkpoint or weights save)."),
         extra={"scenarios": [n for n, _ in matrix], "kill_points": len(kjobs), "synthetic_weight_prefixes": len(syn)},
